@@ -70,6 +70,23 @@ func (g *Gen) canInline(callee *ssa.Function) bool {
 
 func (g *Gen) isSkippable(call *ssa.CallCommon) bool { return false }
 
+// calleeMatches: a callpre / ghostset / observe clause names its callee as Func, Type.Method or,
+// package-qualified, pkg.Func / pkg.Type.Method. Every clause that matched a call is recorded, so that
+// a clause that binds to no call at all is reported instead of being vacuously true.
+func (g *Gen) calleeMatches(kind string, idx int, want, dispName string, callee *ssa.Function) bool {
+	ok := want == dispName
+	if !ok && callee != nil && callee.Pkg != nil && want == callee.Pkg.Pkg.Name()+"."+dispName {
+		ok = true
+	}
+	if ok {
+		if g.clauseBound == nil {
+			g.clauseBound = map[string]bool{}
+		}
+		g.clauseBound[fmt.Sprintf("%s#%d", kind, idx)] = true
+	}
+	return ok
+}
+
 // sigNames returns the parameter names of a call target in argument order (receiver first).
 func sigNames(call *ssa.CallCommon) ([]string, []types.Type) {
 	var names []string
@@ -321,6 +338,17 @@ func (g *Gen) stdSpecial(st *State, name string, call *ssa.CallCommon, result ss
 		return true
 	case "io.Copy", "io.CopyN":
 		return g.ioCopy(st, name, call, result)
+	case "crypto/md5.New", "crypto/sha1.New", "crypto/sha256.New", "crypto/sha512.New384", "crypto/sha512.New":
+		// a hash object is a byte sink that records what has been written to it (hash.Hash.Write
+		// appends, sink.go); the digest itself is a function of that record (Sum: unconstrained bytes)
+		r := g.freshRef(st)
+		g.setHs(st, r, emptyAr)
+		st.heap[bufLenKey] = g.def("H", "(Array Int Int)", fmt.Sprintf("(store %s %s 0)", g.bufLenArr(st, false), r))
+		g.setResult(result, Val{T: r, Kind: "err", Ty: result.Type()})
+		g.trustedUsed[name+": returns a fresh hash object (modelled as the record of the bytes written to it)"] = true
+		return true
+	case "io.NewSectionReader":
+		return g.newSectionReader(st, call, result)
 	case "errors.Is":
 		// errors.Is(err, os.ErrNotExist / os.ErrExist / other sentinel): a predicate of err per sentinel
 		if u, ok := call.Args[1].(*ssa.UnOp); ok {
@@ -410,10 +438,8 @@ func (g *Gen) callCommon(fn *ssa.Function, st *State, call *ssa.CallCommon, resu
 	if call.IsInvoke() {
 		args = append([]Val{g.val(st, call.Value)}, args...)
 		dispName = call.Method.Name()
-		if cc == nil && g.sinkInvoke(st, call, args, result) {
-			return
-		}
 	}
+	trySink := call.IsInvoke() && cc == nil // byte-sink methods are modelled after the callpre clauses saw the call
 	if callee != nil {
 		dispName = calleeKey(callee)
 		if g.stdSpecial(st, callee.String(), call, result, pos) {
@@ -456,8 +482,8 @@ func (g *Gen) callCommon(fn *ssa.Function, st *State, call *ssa.CallCommon, resu
 	}
 	top := fn == g.fn
 	if g.c != nil { // observations also apply inside inlined helpers
-		for _, ob := range g.c.Observe {
-			if ob[0] == dispName {
+		for oi, ob := range g.c.Observe {
+			if g.calleeMatches("observe", oi, ob[0], dispName, callee) {
 				for i, n := range names {
 					if n == ob[1] && i < len(args) {
 						st.ghost["$obs"] = args[i]
@@ -466,7 +492,7 @@ func (g *Gen) callCommon(fn *ssa.Function, st *State, call *ssa.CallCommon, resu
 			}
 		}
 		for ci, cp := range g.c.CallPre {
-			if cp[1] == dispName {
+			if g.calleeMatches("callpre", ci, cp[1], dispName, callee) {
 				e2 := g.invEnv()
 				for i, n := range names {
 					if i < len(args) {
@@ -478,6 +504,21 @@ func (g *Gen) callCommon(fn *ssa.Function, st *State, call *ssa.CallCommon, resu
 					lbl = fmt.Sprint(ci + 1)
 				}
 				g.oblige(st, "callpre", fmt.Sprintf("callpre[%s](%s)#%d", lbl, dispName, g.ord("callpre."+lbl)), g.line(pos), g.spec(st, cp[2], e2))
+			}
+		}
+	}
+	if trySink && g.sinkInvoke(st, call, args, result) {
+		return
+	}
+	if callee != nil { // length model of the formatting functions, after the callpre clauses saw the call
+		switch callee.String() {
+		case "fmt.Sprintf":
+			if g.fmtSprintf(st, call, result) {
+				return
+			}
+		case "fmt.Fprintf":
+			if g.fmtFprintf(st, call, result) {
+				return
 			}
 		}
 	}
@@ -591,8 +632,8 @@ func (g *Gen) callCommon(fn *ssa.Function, st *State, call *ssa.CallCommon, resu
 		g.unmodelled["uncontracted call "+dispName+" (havoc, may panic)"] = true
 	}
 	if g.c != nil { // also inside deferred closures and inlined helpers of the function under contract
-		for _, gs := range g.c.GhostSet {
-			if gs[0] != dispName {
+		for gi, gs := range g.c.GhostSet {
+			if !g.calleeMatches("ghostset", gi, gs[0], dispName, callee) {
 				continue
 			}
 			e2 := g.invEnv()
@@ -724,6 +765,18 @@ func (g *Gen) havocByContract(st *State, cc *Contract, env map[string]Val, args 
 				panic(specErr{"modifies mem(" + name + ") of " + cc.Fn + ": not a slice argument"})
 			}
 			g.havocHs(st, []string{v.Ref}, false)
+		case strings.HasPrefix(m, "sink("):
+			// only the record of the byte sink behind the named writer argument changes
+			name := strings.TrimSuffix(strings.TrimPrefix(m, "sink("), ")")
+			v, ok := env[name]
+			r, isBuf := bufRef(v)
+			if !ok || !isBuf {
+				panic(specErr{"modifies sink(" + name + ") of " + cc.Fn + ": not a writer argument"})
+			}
+			g.havocHs(st, []string{r}, false)
+			nl := g.newSym("sinklen", "Int")
+			g.assume(st, fmt.Sprintf("(and (<= 0 %s) (<= %s %s))", nl, nl, maxLen))
+			st.heap[bufLenKey] = g.def("H", "(Array Int Int)", fmt.Sprintf("(store %s %s %s)", g.bufLenArr(st, false), r, nl))
 		case strings.HasPrefix(m, "map("):
 			g.havocMaps(st)
 		case strings.HasPrefix(m, "cell("):
